@@ -277,6 +277,9 @@ class FGen:
             e = self.simple_eff(scope)
             if e is not None:
                 out.append(e)
+                # the same increase / decrease written twice is legal and adds up
+                if e[0] in ("increase", "decrease") and self.ch.flag(0.08):
+                    out.append(list(e))
         return out
 
     def cond(self, scope):
